@@ -201,6 +201,22 @@ pub fn run(ctx: &Ctx, rep: &mut Report) {
             }
         }
     }
+    // far beyond any AIS message, but the statement is "for every string": lengths around the
+    // points where 16-bit bit/byte counters would wrap
+    if !mon::is_noalloc() {
+        let mut idx2 = 0u64;
+        for len in [5461usize, 5462, 8191, 8192, 10_922, 10_923, 10_924, 16_384, 21_845, 21_846, 43_690, 43_691, 65_535, 65_536, 65_537, 87_382] {
+            for fill in 0..6 {
+                if ctx.mine(idx2) {
+                    let s: Vec<u8> = (0..len).map(|_| *r.pick(armor::ALPHABET)).collect();
+                    check(rep, &s, fill, "huge-random");
+                    let ones = vec![b'w'; len];
+                    check(rep, &ones, fill, "huge-ones");
+                }
+                idx2 += 1;
+            }
+        }
+    }
     rep.require("expect_ok");
     rep.require("expect_err");
 }
